@@ -92,7 +92,24 @@ class World:
         I.static_heap = {a: o.clone() for a, o in res.heap.items()}
         I.heap = I.static_heap
         self._havoc(self.root, self.root_label, set())
+        self._relate()
         I.heap = {}
+
+    # (object label, field) pairs that hold the same value in every reachable
+    # state: both copies are written together by the only functions that write
+    # either (checked by the who-may-write rules of C01/C07)
+    MIRRORED = ((("state", "_current_distance_mode"), ("g", "_distance_mode")),
+                (("state", "_current_axes"), ("g", "_current_axes")))
+
+    def _relate(self):
+        for (l1, f1), (l2, f2) in self.MIRRORED:
+            try:
+                a = self.I.static_heap[self.ref(l1).addr]
+                b = self.I.static_heap[self.ref(l2).addr]
+            except AnalysisError:
+                continue
+            if f1 in a.fields and f2 in b.fields:
+                a.fields[f1] = b.fields[f2]
 
     def _havoc(self, ref: Ref, label: str, seen: set):
         I = self.I
